@@ -256,11 +256,22 @@ def _resolve_index_desc(g, d):
     return (d[1], show(strip(g.desc_local(int(m.group(1))))).replace("*", "")) if m else None
 
 
-def _loc_field(d):
-    """descriptor of `<param>.line` / `<param>.column [- 1]` -> (param index, field)"""
+def _loc_field(d, g=None, _depth=0):
+    """descriptor of `<param>.line` / `<param>.column [- 1]` -> (param index, field); a local assigned on several paths
+    (`if c == 0 { 0 } else { c - 1 }`) stands for the one field all its non-constant assignments are derived from"""
     d = strip(d)
     while d[0] in ("ref", "deref"):
         d = d[1]
+    if d[0] == "var" and g is not None and _depth < 3:
+        got = set()
+        for df in g.defs.get(d[1], []):
+            if df[0] != "s" or len(df[3]) != 1:
+                return None
+            d2 = strip(g.desc_rvalue(df[4]))
+            if d2[0] == "const":
+                continue
+            got.add(_loc_field(d2, g, _depth + 1))
+        return got.pop() if len(got) == 1 else None
     if d[0] == "field" and d[2] == "0" and d[1][0] == "bin":          # checked (a - 1).0
         d = d[1]
     if d[0] == "bin" and d[1] == "Sub":
@@ -334,7 +345,7 @@ def run_prov(prog):
                 items = []
                 for e in arr[-1]:
                     if e[0] == "call" and "Argument" in str(e[1]):
-                        items.append(_loc_field(e[2][0]))
+                        items.append(_loc_field(e[2][0], g))
                 multi = any(f[2][1] is False and show(strip(f[2][0])).count(".line") == 2 for f in g.facts_at(b))
                 groups.append((b, t["line"], items, multi))
         for gi, (b, line, items, multi) in enumerate(groups):
@@ -389,25 +400,59 @@ def run_prov(prog):
     if g is None:
         obs.append(bad(RULE, key, "", "Parser::span_start not found"))
     else:
+        # return values with the at_eof() fact of their block; `opt.map_or(d, |x| e)` / `map_or_else` / `map(..).unwrap_or(d)` contribute the
+        # default and the closure's results (its parameter standing for the receiver's payload)
         rets = []
+
+        def eof_at(b):
+            eof = [f[2][1] for f in g.facts_at(b) if "at_eof" in show(strip(f[2][0]))]
+            return eof[0] if eof else None
+
+        def closure_rets(path, recv_txt):
+            c = prog.fn(path)
+            out = []
+            if c is None:
+                return out
+            for cb in sorted(c.live_blocks):
+                for cs in c.stmts(cb):
+                    if cs[0] == "a" and cs[1] == [0]:
+                        out.append(show(strip(c.desc_rvalue(cs[2]))).replace("arg2", "(%s as Some).0" % recv_txt).replace("p2", "(%s as Some).0" % recv_txt))
+            return out
+
         for b in sorted(g.live_blocks):
             for s in g.stmts(b):
                 if s[0] == "a" and s[1] == [0]:
                     d = strip(g.desc_rvalue(s[2]))
-                    eof = [f[2][1] for f in g.facts_at(b) if "at_eof" in show(strip(f[2][0]))]
-                    rets.append((eof[0] if eof else None, d))
+                    rets.append((eof_at(b), d[0] == "const", show(d)))
+            t = g.term(b)
+            if isinstance(t, dict) and t["k"] == "call" and t.get("dest") == [0] and not g.is_cleanup(b):
+                fn = t.get("fn") or ""
+                args = [strip(g.desc_op(a)) for a in t["args"]]
+                if fn.endswith("Option::<T>::map_or") and len(args) == 3 and args[2][0] == "agg" and args[2][1] == "closure":
+                    rets.append((eof_at(b), args[1][0] == "const", show(args[1])))
+                    for txt in closure_rets(args[2][2], show(args[0])):
+                        rets.append((eof_at(b), False, txt))
+                elif fn.endswith("Option::<T>::unwrap_or") and len(args) == 2 and args[0][0] == "call" and str(args[0][1]).endswith("Option::<T>::map"):
+                    rets.append((eof_at(b), args[1][0] == "const", show(args[1])))
+                    inner = args[0][2]
+                    if len(inner) == 2 and inner[1][0] == "agg" and inner[1][1] == "closure":
+                        for txt in closure_rets(inner[1][2], show(inner[0])):
+                            rets.append((eof_at(b), False, txt))
+                else:
+                    rets.append((eof_at(b), False, show(strip(("call", fn, tuple(args))))))
         probs = []
-        for eof, d in rets:
-            n += 1
-            txt = show(d)
-            if eof is True and d[0] != "const" and not (txt.endswith(".range.1") and "last" in txt):
+        classes = set()
+        for eof, is_const, txt in rets:
+            classes.add(eof)
+            if eof is True and not is_const and not (txt.endswith(".range.1") and "last" in txt):
                 probs.append("at end of input the position is `%s`, not the end of the last lexeme" % txt[:70])
             if eof is False and not (txt.endswith(".range.0") and "self.offset" in txt):
                 probs.append("before end of input the position is `%s`, not the start of the current lexeme" % txt[:70])
             if eof is None:
                 probs.append("a return value `%s` is not decided by at_eof()" % txt[:60])
-        if len(rets) < 3:
-            probs.append("expected 3 return values (eof with / without lexemes, current lexeme), found %d" % len(rets))
+        n += len(classes & {True, False})
+        if not {True, False} <= classes or not any(e is True and not c for e, c, _t in rets):
+            probs.append("expected a position for end of input (end of the last lexeme) and one for the current lexeme")
         obs.append(bad(RULE, key, site(g), "; ".join(probs)) if probs else ok(RULE, key, site(g), "current lexeme's start, or the end of the last lexeme at end of input"))
     g = prog.fn("jrsonnet_ir_parser::Parser::<'a>::span_end")
     key = "span_end"
@@ -431,7 +476,7 @@ def run_prov(prog):
         obs.append(ok(RULE, key, site(g), "ParseError.location.offset = span_start()") if good else bad(RULE, key, site(g), "the error offset is not span_start()"))
     else:
         obs.append(bad(RULE, key, "", "Parser::error not found"))
-    return obs, [Floor(RULE, "provenance sites", n, 14)], {"prov_sites": n}
+    return obs, [Floor(RULE, "provenance sites", n, 13)], {"prov_sites": n}
 
 
 # ---------------------------------------------------------------------------------------------------------------
